@@ -13,25 +13,15 @@ Print Assumptions C13_blank_lines_squeezed.
 (* Line assembly is a fixed point of re-chunking, for ALL chunk lists and ALL options: take the lines join_chunks emitted,
    describe each by the chunks that went into it (same type, same indent) followed by a newline chunk
    (spec.FormatSpec.rechunk: what a second run sees of the first run's layout -- ignored newlines and squeezed empty
-   lines are gone, a plain chunk `text\n` has become `text` + newline chunk), join again: the same text.
-   Guards: stable_chunks (no empty chunk; labels and comments on one line -- i.e. no multi-line comment; a plain chunk has
-   a line break at most as its last character) and ends_with_nl (the last chunk carries a line break, as the chunk list of
-   every non-empty file does: format_tokens pushes a newline in front of Eof).
+   lines are gone, a plain chunk `text\n` has become `text` + newline chunk, the newline that format_tokens pushes in
+   front of Eof follows the last line), join again: the same text.
+   Guard (decidable, exact in kind: see the refuted lemma below): stable_chunks = no empty chunk; labels and comments on
+   one line -- i.e. no multi-line comment; a plain chunk has a line break at most as its last character.
    Proof: replay invariant over the model's own run (proofs/FormatIdemGeneral.v), no bound on the list. *)
-Theorem C13_join_fixed : forall cs o, stable_chunks cs = true -> ends_with_nl cs = true ->
+Theorem C13_join_fixed : forall cs o, stable_chunks cs = true ->
   join_chunks (rechunk cs o) o = join_chunks cs o.
 Proof. exact join_fixed. Qed.
 Print Assumptions C13_join_fixed.
-
-(* The same without the ends_with_nl guard (chunk lists whose last chunk has no line break: a file that consists of
-   comments only).  PARTIAL: proved by exhaustive evaluation for every chunk list of length <= 4 over the 10 chunk shapes of
-   sweep_alphabet (short / long label, code, blank, newline with and without pending space, block and line comment, two
-   indents) x the 8 margin / alignment settings of sweep_options -- not by induction. *)
-Theorem C13_join_fixed_no_final_newline_partial : forall cs o,
-  In o sweep_options -> In cs (lists_of 4 sweep_alphabet) -> stable_chunks cs = true ->
-  join_chunks (rechunk cs o) o = join_chunks cs o.
-Proof. exact join_fixed_bounded. Qed.
-Print Assumptions C13_join_fixed_no_final_newline_partial.
 
 (* the guard is exact in kind: a typed chunk that contains its own line break is not reproduced from its lines *)
 Theorem C13_join_fixed_guard_needed_refuted : exists cs o,
@@ -53,7 +43,7 @@ Print Assumptions C13_multiline_comment_refuted.
 Example C13_join_fixed_example :
   let cs := [mkChunk (Some Label) 0 [97; 58]%N; mkChunk None 0 [NL]; mkChunk None 0 [110; 111; 112]%N;
              mkChunk (Some Comment) 0 [47; 47; 32; 99]%N; mkChunk None 0 [NL]; mkChunk None 0 [NL]; mkChunk None 0 [NL]] in
-  stable_chunks cs = true /\ ends_with_nl cs = true /\
+  stable_chunks cs = true /\
   rechunk cs default_options = [mkChunk (Some Label) 0 [97; 58]%N; mkChunk None 0 [110; 111; 112]%N;
                                 mkChunk (Some Comment) 0 [47; 47; 32; 99]%N; mkChunk None 0 [NL]; mkChunk None 0 [NL]].
 Proof. vm_compute. repeat split; reflexivity. Qed.
